@@ -203,3 +203,7 @@ mod tests {
         })
     }
 }
+
+#[cfg(kani)]
+#[path = "/verif/kani/rten-tensor/overlap.rs"]
+mod verif_kani;
